@@ -6,6 +6,7 @@
 -/
 import Flumine.SimLoop
 import Flumine.Lemmas.WorldLemmas
+import Flumine.Lemmas.Ids
 import Mathlib.Tactic.Linarith
 namespace Flumine.C15
 open Flumine Flumine.World
@@ -79,5 +80,21 @@ theorem loopStep_keeps_or_completes (mid : Nat) (w : World) (oid : Nat) :
       · left; rfl
 
 theorem statusComplete_ec : statusComplete .executionComplete = true := by decide
+
+
+/-! ### the order table only grows -/
+
+/-- whatever one market update does - due packages executed (place / cancel / update / replace handlers,
+    replacement orders created), removals applied, matching, completion, closure, any scripted requests
+    of any strategies, refused or accepted - the order ids present before are still present afterwards,
+    in the same positions; new orders are only appended -/
+theorem order_ids_stable (w : World) (mid : Nat) (book : Book) (script : Nat → List Action) :
+    ∃ extra, Ids.ids (w.processMarketBook mid book script).1 = Ids.ids w ++ extra :=
+  Ids.keeps_processMarketBook w mid book script
+
+/-- so an order, once created, can always be looked up again -/
+theorem order_never_lost (w : World) (mid : Nat) (book : Book) (script : Nat → List Action) (id : Nat)
+    (h : OL.HasOrder w id) : OL.HasOrder (w.processMarketBook mid book script).1 id :=
+  Ids.orders_never_lost w mid book script id h
 
 end Flumine.C15
